@@ -913,6 +913,16 @@ class ExternalTensor(TensorBase, _protocols.TensorProtocol):  # pylint: disable=
         assert self._array is not None
         return self._array
 
+    def _data_length(self) -> int:
+        """Number of bytes of the file region that hold the tensor.
+
+        A recorded length that is larger than the tensor (padding after the data) does
+        not make the tensor larger: its bytes are the first ``nbytes`` of the region.
+        """
+        if not self._length:
+            return self.nbytes
+        return min(self._length, self.nbytes)
+
     def tobytes(self) -> bytes:
         """Return the bytes of the tensor.
 
@@ -929,7 +939,7 @@ class ExternalTensor(TensorBase, _protocols.TensorProtocol):  # pylint: disable=
             self._load()
         assert self.raw is not None
         offset = self._offset or 0
-        length = self._length or self.nbytes
+        length = self._data_length()
         return self.raw[offset : offset + length]
 
     def tofile(self, file) -> None:
@@ -947,7 +957,7 @@ class ExternalTensor(TensorBase, _protocols.TensorProtocol):  # pylint: disable=
         self._check_path_containment()
         with open(self.path, "rb") as src:
             source_offset = self._offset or 0
-            bytes_to_copy = self._length or self.nbytes
+            bytes_to_copy = self._data_length()
             copied = 0
 
             # Linux can copy file ranges entirely inside the kernel, avoiding
@@ -1000,7 +1010,7 @@ class ExternalTensor(TensorBase, _protocols.TensorProtocol):  # pylint: disable=
                 chunk = src.read(min(_EXTERNAL_TENSOR_COPY_CHUNK_SIZE, bytes_to_copy))
                 if not chunk:
                     failed_at_offset = (self._offset or 0) + (
-                        (self._length or self.nbytes) - bytes_to_copy
+                        self._data_length() - bytes_to_copy
                     )
                     raise OSError(
                         f"External data file {self.path!r} is shorter than expected: "
